@@ -48,6 +48,14 @@ fn small(v: i128) -> Value {
     if v.abs() < (1 << 30) { json!(v as i64) } else { json!(BAD) }
 }
 
+/// a getter that traps is data (BAD), never a harness abort
+fn got<E1, E2>(r: Result<Result<i128, E1>, E2>) -> Value {
+    match r {
+        Ok(Ok(v)) => small(v),
+        _ => json!(BAD),
+    }
+}
+
 impl Sys {
     fn new(users: &[&str], off: u32, fund: i64) -> Sys {
         let e = new_env(&LedgerCfg { seq: NOW0, min_temp: 16, min_persistent: 1_000_000, max_ttl: 100_000 });
@@ -74,18 +82,18 @@ impl Sys {
         let (mut asset, mut sh, mut sal, mut aal) = (JMap::new(), JMap::new(), JMap::new(), JMap::new());
         for x in &self.accts {
             let xa = self.names.get(x);
-            asset.insert(x.clone(), small(ac.balance(&xa)));
-            sh.insert(x.clone(), small(vc.balance(&xa)));
+            asset.insert(x.clone(), got(ac.try_balance(&xa)));
+            sh.insert(x.clone(), got(vc.try_balance(&xa)));
             let (mut r1, mut r2) = (JMap::new(), JMap::new());
             for y in &self.accts {
                 let ya = self.names.get(y);
-                r1.insert(y.clone(), small(vc.allowance(&xa, &ya)));
-                r2.insert(y.clone(), small(ac.allowance(&xa, &ya)));
+                r1.insert(y.clone(), got(vc.try_allowance(&xa, &ya)));
+                r2.insert(y.clone(), got(ac.try_allowance(&xa, &ya)));
             }
             sal.insert(x.clone(), Value::Object(r1));
             aal.insert(x.clone(), Value::Object(r2));
         }
-        json!({"asset": asset, "sh": sh, "supply": small(vc.total_supply()), "sal": sal, "aal": aal})
+        json!({"asset": asset, "sh": sh, "supply": got(vc.try_total_supply()), "sal": sal, "aal": aal})
     }
 
     /// read-only getters of the vault trait, asked after the judged call: total_assets, the two conversions for 1 and
@@ -97,12 +105,12 @@ impl Sys {
         let (mut maxw, mut maxr) = (JMap::new(), JMap::new());
         for x in &self.accts {
             let xa = self.names.get(x);
-            maxw.insert(x.clone(), small(vc.max_withdraw(&xa)));
-            maxr.insert(x.clone(), small(vc.max_redeem(&xa)));
+            maxw.insert(x.clone(), got(vc.try_max_withdraw(&xa)));
+            maxr.insert(x.clone(), got(vc.try_max_redeem(&xa)));
         }
-        json!({"ta": small(vc.total_assets()), "px": small(px),
-               "cs1": small(vc.convert_to_shares(&1)), "csx": small(vc.convert_to_shares(&px)),
-               "ca1": small(vc.convert_to_assets(&1)), "cax": small(vc.convert_to_assets(&px)),
+        json!({"ta": got(vc.try_total_assets()), "px": small(px),
+               "cs1": got(vc.try_convert_to_shares(&1)), "csx": got(vc.try_convert_to_shares(&px)),
+               "ca1": got(vc.try_convert_to_assets(&1)), "cax": got(vc.try_convert_to_assets(&px)),
                "maxw": maxw, "maxr": maxr})
     }
 
